@@ -282,6 +282,26 @@ func suiteC13(c *ctx) {
 			}
 		}
 	}
+	// response texts that a lenient reader of the grammar gets wrong: every single byte as the first
+	// byte of the message, blanks / tabs / NULs before and after, the verdict words inside the message
+	var msgs [][]byte
+	for b := 0; b < 256; b++ {
+		msgs = append(msgs, []byte{byte(b)}, []byte{byte(b), 'x'})
+	}
+	for _, m := range []string{" ", "  ", " x", "  x", "x ", " x ", "\tx", "\nx", " OK", " NO", "OK", "NO x", "\x00x", "x\x00", "   ", " \t "} {
+		msgs = append(msgs, []byte(m))
+	}
+	for _, m := range msgs {
+		for _, ok := range []bool{true, false} {
+			idx++
+			if !c.mine(idx) {
+				continue
+			}
+			if enc := c.respEnc(ok, m); enc != nil && idx%7 == 0 {
+				c.decAll("sasl.respdec", enc)
+			}
+		}
+	}
 	// decoder inputs
 	nrand := 1500
 	if c.thorough() {
